@@ -229,6 +229,11 @@ func c13Exprs(e *Env) []vexpr {
 		{"nested-struct", "@S{In: @Inner{X: $}}", "@S", false}, {"slice-of-struct", "[]@S{{A: $}}", "[]@S", true}, {"keyed-array", "[3]int{1: $}", "[3]int", false},
 		{"ptr-slice-elem", "[]*@S{{A: $}}", "[]*@S", true}, {"iface-elem", "[]interface{}{$}", "[]interface{}", true}, {"map-key", "map[int]string{$: \"v\"}", "map[int]string", true},
 		{"index-dyn", "@Arr[($)%3&1]", "int", false},
+		{"slice-low-bound", "@Sl[($)&1:][0]", "int", false}, {"slice-high-bound", "@Sl[0 : ($)&1+1][0]", "int", false}, {"slice3-max-bound", "@Sl[0:1:($)&1+2][0]", "int", false},
+		{"selector-of-literal", "(@S{A: $}).A", "int", false}, {"index-of-literal", "[]int{$}[0]", "int", false}, {"map-index-of-literal", "map[int]int{1: $}[1]", "int", false},
+		{"nested-index", "@Arr[@Sl[($)&1]&1]", "int", false}, {"deref-addr-of-literal-elem", "*(&[]int{$}[0])", "int", false},
+		{"nested-literal-key", "map[int]map[int]int{1: {$: 2}}", "map[int]map[int]int", true}, {"literal-in-index", "@Arr[[]int{($) & 1}[0]]", "int", false},
+		{"conv-in-paren", "@N(($))", "@N", false}, {"type-assert-of-literal", "interface{}($).(int)", "int", false},
 	}
 	n := 0
 	for _, tm := range intTemplates {
